@@ -18,9 +18,12 @@ import (
 	"encoding/hex"
 	"encoding/json"
 	"fmt"
+	"io"
 	"net/http"
+	"net/http/httptest"
 	"os"
 	"strings"
+	"sync"
 	"testing"
 	"time"
 
@@ -76,14 +79,126 @@ func (c c19enc) Encode(v any) {
 	c.w.Flush()
 }
 
+// the runner of the chat requests: mockRunner of routes_generate_test.go with every Completion request recorded and a
+// Tokenize that can park one request (the first whose rendered candidate contains parkMarker) until it is released
+type c19Runner struct {
+	mockRunner
+	mu         sync.Mutex
+	captured   []llm.CompletionRequest
+	parkMarker string
+	parked     bool
+	parkedCh   chan struct{}
+	resumeCh   chan struct{}
+}
+
+func (r *c19Runner) Tokenize(ctx context.Context, s string) ([]int, error) {
+	r.mu.Lock()
+	park := r.parkMarker != "" && !r.parked && strings.Contains(s, r.parkMarker)
+	if park {
+		r.parked = true
+	}
+	r.mu.Unlock()
+	if park {
+		close(r.parkedCh)
+		<-r.resumeCh
+	}
+	return r.mockRunner.Tokenize(ctx, s)
+}
+
+func (r *c19Runner) ncaptured() int {
+	r.mu.Lock()
+	defer r.mu.Unlock()
+	return len(r.captured)
+}
+
+func c19post(fn func(*gin.Context), body any) *httptest.ResponseRecorder {
+	w := NewRecorder()
+	c, _ := gin.CreateTestContext(w)
+	var b bytes.Buffer
+	json.NewEncoder(&b).Encode(body)
+	c.Request = &http.Request{Body: io.NopCloser(&b)}
+	fn(c)
+	return w.ResponseRecorder
+}
+
+// the conversation as the user sees it: model messages, then the request's; the model's system prompt first unless the
+// request starts with a system message of its own (api.Message.UnmarshalJSON lower-cases the role of every message
+// that arrives over HTTP); with the real template's rendering and token count of every candidate suffix
+func c19expect(tmpl *template.Template, system string, modelMsgs, reqMsgs []api.Message) (map[string]any, string) {
+	conv := append(append([]api.Message{}, modelMsgs...), reqMsgs...)
+	for i := range conv {
+		conv[i].Role = strings.ToLower(conv[i].Role)
+	}
+	if len(reqMsgs) > 0 && strings.ToLower(reqMsgs[0].Role) != "system" && system != "" {
+		conv = append([]api.Message{{Role: "system", Content: system}}, conv...)
+	}
+	res := map[string]any{}
+	cand := []int{}
+	candPrompt := []string{}
+	for k := range conv {
+		var l []api.Message
+		for _, x := range conv[:k] {
+			if x.Role == "system" {
+				l = append(l, x)
+			}
+		}
+		l = append(l, conv[k:]...)
+		var b bytes.Buffer
+		if err := tmpl.Execute(&b, template.Values{Messages: l}); err != nil {
+			return nil, err.Error()
+		}
+		toks, _ := mockRunner{}.Tokenize(context.Background(), b.String())
+		cand = append(cand, len(toks))
+		candPrompt = append(candPrompt, hex.EncodeToString(b.Bytes()))
+	}
+	res["cand"] = cand
+	res["cand_prompt"] = candPrompt
+	convOut := []map[string]any{}
+	for _, m := range conv {
+		imgs := []string{}
+		for _, i := range m.Images {
+			imgs = append(imgs, hex.EncodeToString(i))
+		}
+		convOut = append(convOut, map[string]any{"role": hex.EncodeToString([]byte(m.Role)), "content": hex.EncodeToString([]byte(m.Content)), "images": imgs})
+	}
+	res["conv"] = convOut
+	return res, ""
+}
+
+func c19observe(res map[string]any, code int, body string, got *llm.CompletionRequest) {
+	res["status"] = code
+	if code != http.StatusOK || got == nil {
+		res["outcome"] = 3
+		res["err"] = body
+		return
+	}
+	res["outcome"] = 0
+	res["err"] = ""
+	res["prompt"] = hex.EncodeToString([]byte(got.Prompt))
+	imgs := []map[string]any{}
+	for _, i := range got.Images {
+		imgs = append(imgs, map[string]any{"id": i.ID, "data": hex.EncodeToString(i.Data)})
+	}
+	res["images"] = imgs
+	if got.Options != nil {
+		res["num_ctx_used"] = got.Options.NumCtx
+	}
+}
+
 func TestVerifC19Chat(t *testing.T) {
 	if os.Getenv("VERIF_C19_CHAT") == "" {
 		t.Skip("driven by the C19 check only")
 	}
 	gin.SetMode(gin.TestMode)
 
-	mock := mockRunner{
-		CompletionResponse: llm.CompletionResponse{Done: true, DoneReason: llm.DoneReasonStop, PromptEvalCount: 1, PromptEvalDuration: 1, EvalCount: 1, EvalDuration: 1},
+	mock := &c19Runner{}
+	mock.CompletionResponse = llm.CompletionResponse{Done: true, DoneReason: llm.DoneReasonStop, PromptEvalCount: 1, PromptEvalDuration: 1, EvalCount: 1, EvalDuration: 1}
+	mock.CompletionFn = func(_ context.Context, r llm.CompletionRequest, fn func(llm.CompletionResponse)) error {
+		mock.mu.Lock()
+		mock.captured = append(mock.captured, r)
+		mock.mu.Unlock()
+		fn(mock.CompletionResponse)
+		return nil
 	}
 	s := Server{
 		sched: &Scheduler{
@@ -92,12 +207,12 @@ func TestVerifC19Chat(t *testing.T) {
 			expiredCh:     make(chan *runnerRef, 1),
 			unloadedCh:    make(chan any, 1),
 			loaded:        make(map[string]*runnerRef),
-			newServerFn:   newMockServer(&mock),
+			newServerFn:   func(_ discover.GpuInfoList, _ string, _ *ggml.GGML, _, _ []string, _ api.Options, _ int) (llm.LlamaServer, error) { return mock, nil },
 			getGpuFn:      discover.GetGPUInfo,
 			getCpuFn:      discover.GetCPUInfo,
 			reschedDelay:  250 * time.Millisecond,
 			loadFn: func(req *LlmRequest, _ *ggml.GGML, _ discover.GpuInfoList, _ int) {
-				req.successCh <- &runnerRef{llama: &mock}
+				req.successCh <- &runnerRef{llama: mock}
 			},
 		},
 	}
@@ -147,8 +262,6 @@ func TestVerifC19Chat(t *testing.T) {
 		tmplText := c19unhex(c["tmpl"])
 		system := c19unhex(c["system"])
 		modelMsgs := c19msgs(c["model_msgs"])
-		reqMsgs := c19msgs(c["msgs"])
-		numCtx := int(c["num_ctx"].(float64))
 
 		rec := createRequest(t, s.CreateHandler, api.CreateRequest{
 			Model: name, Files: map[string]string{"file.gguf": digest}, Template: tmplText, System: system, Messages: modelMsgs, Stream: &stream,
@@ -157,81 +270,107 @@ func TestVerifC19Chat(t *testing.T) {
 			enc.Encode(map[string]any{"harness_error": fmt.Sprintf("create: %d %s", rec.Code, rec.Body.String())})
 			continue
 		}
-
-		// the conversation as the user sees it: model messages, then the request's; the model's system prompt first
-		// unless the request starts with a system message of its own
-		// (api.Message.UnmarshalJSON lower-cases the role of every message that arrives over HTTP)
-		conv := append(append([]api.Message{}, modelMsgs...), reqMsgs...)
-		for i := range conv {
-			conv[i].Role = strings.ToLower(conv[i].Role)
-		}
-		if len(reqMsgs) > 0 && strings.ToLower(reqMsgs[0].Role) != "system" && system != "" {
-			conv = append([]api.Message{{Role: "system", Content: system}}, conv...)
-		}
-		res := map[string]any{}
 		tmpl, err := template.Parse(tmplText)
 		if err != nil {
 			enc.Encode(map[string]any{"harness_error": "template: " + err.Error()})
 			continue
 		}
-		cand := []int{}
-		candPrompt := []string{}
-		execErr := ""
-		for k := range conv {
-			var l []api.Message
-			for _, x := range conv[:k] {
-				if x.Role == "system" {
-					l = append(l, x)
-				}
+
+		// one request (flat reply) or several requests to the same model: in order, or with the first one parked inside
+		// the runner's Tokenize while the others are served completely ("overlap")
+		type rq struct {
+			msgs   []api.Message
+			numCtx int
+		}
+		var reqs []rq
+		multi := false
+		if l, ok := c["reqs"].([]any); ok {
+			multi = true
+			for _, x := range l {
+				m := x.(map[string]any)
+				reqs = append(reqs, rq{c19msgs(m["msgs"]), int(m["num_ctx"].(float64))})
 			}
-			l = append(l, conv[k:]...)
-			var b bytes.Buffer
-			if err := tmpl.Execute(&b, template.Values{Messages: l}); err != nil {
-				execErr = err.Error()
+		} else {
+			reqs = []rq{{c19msgs(c["msgs"]), int(c["num_ctx"].(float64))}}
+		}
+		overlap, _ := c["overlap"].(bool)
+		out := make([]map[string]any, len(reqs))
+		bad := ""
+		for i, r := range reqs {
+			res, e := c19expect(tmpl, system, modelMsgs, r.msgs)
+			if e != "" {
+				bad = "execute: " + e
 				break
 			}
-			toks, _ := mockRunner{}.Tokenize(context.Background(), b.String())
-			cand = append(cand, len(toks))
-			candPrompt = append(candPrompt, hex.EncodeToString(b.Bytes()))
+			out[i] = res
 		}
-		if execErr != "" {
-			enc.Encode(map[string]any{"harness_error": "execute: " + execErr})
+		if bad != "" {
+			enc.Encode(map[string]any{"harness_error": bad})
 			continue
 		}
-		res["cand"] = cand
-		res["cand_prompt"] = candPrompt
-		convOut := []map[string]any{}
-		for _, m := range conv {
-			imgs := []string{}
-			for _, i := range m.Images {
-				imgs = append(imgs, hex.EncodeToString(i))
+		serve := func(i int) {
+			before := mock.ncaptured()
+			rec := c19post(s.ChatHandler, api.ChatRequest{Model: name, Messages: reqs[i].msgs, Options: map[string]any{"num_ctx": reqs[i].numCtx}, Stream: &stream})
+			var got *llm.CompletionRequest
+			mock.mu.Lock()
+			if len(mock.captured) == before+1 {
+				g := mock.captured[before]
+				got = &g
 			}
-			convOut = append(convOut, map[string]any{"role": hex.EncodeToString([]byte(m.Role)), "content": hex.EncodeToString([]byte(m.Content)), "images": imgs})
+			mock.mu.Unlock()
+			c19observe(out[i], rec.Code, rec.Body.String(), got)
 		}
-		res["conv"] = convOut
-
-		mock.CompletionRequest = llm.CompletionRequest{Prompt: "\x00unset"}
-		rec = createRequest(t, s.ChatHandler, api.ChatRequest{
-			Model: name, Messages: reqMsgs, Options: map[string]any{"num_ctx": numCtx}, Stream: &stream,
-		})
-		res["status"] = rec.Code
-		if rec.Code != http.StatusOK || mock.CompletionRequest.Prompt == "\x00unset" {
-			res["outcome"] = 3
-			res["err"] = rec.Body.String()
-			enc.Encode(res)
-			continue
+		parked := false
+		if overlap && len(reqs) > 1 {
+			mock.mu.Lock()
+			mock.parkMarker, mock.parked = c19unhex(c["park"]), false
+			mock.parkedCh, mock.resumeCh = make(chan struct{}), make(chan struct{})
+			mock.mu.Unlock()
+			done := make(chan struct{})
+			beforeA := mock.ncaptured()
+			var recA *httptest.ResponseRecorder
+			go func() {
+				defer close(done)
+				recA = c19post(s.ChatHandler, api.ChatRequest{Model: name, Messages: reqs[0].msgs, Options: map[string]any{"num_ctx": reqs[0].numCtx}, Stream: &stream})
+			}()
+			select {
+			case <-mock.parkedCh:
+				parked = true
+			case <-done:
+			case <-time.After(20 * time.Second):
+			}
+			mock.mu.Lock()
+			mock.parkMarker = "" // nobody else parks
+			mock.mu.Unlock()
+			for i := 1; i < len(reqs); i++ {
+				serve(i)
+			}
+			before := mock.ncaptured()
+			if parked {
+				close(mock.resumeCh)
+			}
+			<-done
+			var got *llm.CompletionRequest
+			mock.mu.Lock()
+			if parked && len(mock.captured) == before+1 {
+				g := mock.captured[before]
+				got = &g
+			} else if !parked && len(mock.captured) > beforeA && recA.Code == http.StatusOK {
+				// it ran to completion before the others: its request is the first one recorded for this case
+				g := mock.captured[beforeA]
+				got = &g
+			}
+			mock.mu.Unlock()
+			c19observe(out[0], recA.Code, recA.Body.String(), got)
+		} else {
+			for i := range reqs {
+				serve(i)
+			}
 		}
-		res["outcome"] = 0
-		res["err"] = ""
-		res["prompt"] = hex.EncodeToString([]byte(mock.CompletionRequest.Prompt))
-		imgs := []map[string]any{}
-		for _, i := range mock.CompletionRequest.Images {
-			imgs = append(imgs, map[string]any{"id": i.ID, "data": hex.EncodeToString(i.Data)})
+		if multi {
+			enc.Encode(map[string]any{"multi": out, "parked": parked})
+		} else {
+			enc.Encode(out[0])
 		}
-		res["images"] = imgs
-		if mock.CompletionRequest.Options != nil {
-			res["num_ctx_used"] = mock.CompletionRequest.Options.NumCtx
-		}
-		enc.Encode(res)
 	}
 }
